@@ -1,5 +1,5 @@
 import RTV.Drv.Proto
-import RTV.Model.TimexCfg
+import RTV.Model.TimexConvert
 /-! Driver handlers for L7 `Timex` (C14, C15). All run `genCfg` (patterns and constants regenerated from the tree).
   tx.parse <cps>                       -> fields ## types ## timex_value
   tx.fromdate y m d | tx.fromdt y m d h mi s | tx.fromtime h m s   -> fields ## types ## timex_value
@@ -190,6 +190,47 @@ def hDurValue : Handler
   | [s] => showR (fun v => "S" ++ showCps v) (durationValue (parse genCfg (parseCps s)))
   | _ => "bad-op"
 
+def showCErr : CErr → String
+  | .typeError => "err:TypeError"
+  | .keyError => "err:KeyError"
+  | .indexError => "err:IndexError"
+  | .valueError => "err:ValueError"
+  | .notImplemented => "err:NotImplementedError"
+  | .overflowError => "err:OverflowError"
+  | .unmodelled => "unmodelled"
+
+def showC : C Str → String
+  | .ok s => "S" ++ showCps s
+  | .error e => showCErr e
+
+/-- tx.tostr <cps> | tx.settostr <cps> | tx.torel <cps> y m d secs | tx.creator <name> y m d [n] -/
+def hToStr : Handler
+  | [s] => showC (timexToString genEng (parse genCfg (parseCps s)))
+  | _ => "bad-op"
+
+def hSetToStr : Handler
+  | [s] => showC (timexSetToString genEng (parse genCfg (parseCps s)))
+  | _ => "bad-op"
+
+def hToRel : Handler
+  | [s, y, m, d, secs] =>
+    showC (timexToRelative genEng (parse genCfg (parseCps s)) ⟨parseNat y, parseNat m, parseNat d⟩ (parseNat secs))
+  | _ => "bad-op"
+
+def hCreator : Handler
+  | name :: y :: m :: d :: rest =>
+    let dt : Date := ⟨parseNat y, parseNat m, parseNat d⟩
+    match name with
+    | "yesterday" => showC (creatorYesterday dt)
+    | "week_from_today" => showC (creatorWeekFromToday dt)
+    | "week_back_today" => showC (creatorWeekBackToday dt)
+    | "this_week" => showC (creatorThisWeek genCfg dt)
+    | "next_week" => showC (creatorNextWeek genCfg dt)
+    | "last_week" => showC (creatorLastWeek genCfg dt)
+    | "next_weeks_from_today" => showC (creatorNextWeeksFromToday genCfg (parseInt (rest.headD "0")) dt)
+    | _ => "bad-op"
+  | _ => "bad-op"
+
 def dispatchTimex (op : String) (args : List String) : Option String :=
   match op with
   | "tx.parse" => some (hParse args)
@@ -212,6 +253,10 @@ def dispatchTimex (op : String) (args : List String) : Option String :=
   | "tx.dateadd" => some (hDateAdd args)
   | "tx.timeadd" => some (hTimeAdd args)
   | "tx.durvalue" => some (hDurValue args)
+  | "tx.tostr" => some (hToStr args)
+  | "tx.settostr" => some (hSetToStr args)
+  | "tx.torel" => some (hToRel args)
+  | "tx.creator" => some (hCreator args)
   | _ => none
 
 end RTV.Drv
